@@ -90,6 +90,9 @@ def main():
             rc0, o0 = run_demo(wt, demo_dir)
             res["demo_passes_without_change"] = (rc0 == 0)
             rc, o = sh(["git", "apply", diff], cwd=wt)
+            if rc != 0:
+                sh(["git", "checkout", "--", "."], cwd=wt)
+                rc, o = sh(["git", "apply", "--3way", diff], cwd=wt)
             res["applies"] = (rc == 0)
             if rc != 0:
                 res["apply_output"] = o[-500:]
